@@ -41,7 +41,11 @@ def handleCharClass : List Sexp → Sexp
     | none => .list [.atom "bad-request"]
   | _ => .list [.atom "bad-request"]
 
+/-- `(acceptword)` → `(acceptword b)`: the shape of lexer.acceptWord the translator found (`Gen.acceptWordAnySpace`) -/
+def handleAcceptWord : List Sexp → Sexp
+  | _ => .list [.atom "acceptword", Sexp.bool Gen.goCharClass.notInAnySpace]
+
 def lexHandlers : List (String × (List Sexp → Sexp)) :=
-  [("lex", handleLex), ("number", handleNumber), ("charclass", handleCharClass)]
+  [("lex", handleLex), ("number", handleNumber), ("charclass", handleCharClass), ("acceptword", handleAcceptWord)]
 
 end ExprModel.Drv
